@@ -229,12 +229,40 @@ def check_replace_params(ctx):
                 descends = any(isinstance(a, ast.Assign) and isinstance(a.value, ast.Attribute) and a.value.attr == "wrapped_gate" for a in ast.walk(w))
                 if apps and descends:
                     peeled = apps[0].func.value.id
+        extra_parity = 0
+
+        def _peel_loop(fn):
+            for w in body_walk(fn):
+                if isinstance(w, ast.While):
+                    apps = [c for c in ast.walk(w) if isinstance(c, ast.Call) and isinstance(c.func, ast.Attribute) and c.func.attr == "append" and isinstance(c.func.value, ast.Name)]
+                    descends = any(isinstance(a, ast.Assign) and isinstance(a.value, ast.Attribute) and a.value.attr == "wrapped_gate" for a in ast.walk(w))
+                    if apps and descends:
+                        return apps[0].func.value.id
+            return None
+
+        if peeled is None:
+            # the peeling loop lives in a second helper that hands back (base gate, modifiers): the list keeps the callee's order
+            # (plus whatever reversal the callee applies to it on return)
+            for a in body_walk(h.node):
+                if isinstance(a, ast.Assign) and isinstance(a.targets[0], ast.Tuple) and isinstance(a.value, ast.Call) and isinstance(a.value.func, ast.Name) and a.value.func.id in mod.functions:
+                    g = mod.functions[a.value.func.id]
+                    lst = _peel_loop(g.node)
+                    grets = returned_exprs(g.node)
+                    if lst and len(grets) == 1 and isinstance(grets[0], ast.Tuple) and len(grets[0].elts) == len(a.targets[0].elts):
+                        og = Orient(g.node, lambda e, lst=lst: isinstance(e, ast.Name) and e.id == lst)
+                        for i, el in enumerate(grets[0].elts):
+                            pg = og.parity(el) if any(isinstance(x, ast.Name) and x.id == lst for x in ast.walk(el)) else None
+                            if pg is not None and isinstance(a.targets[0].elts[i], ast.Name):
+                                peeled, extra_parity = a.targets[0].elts[i].id, pg
+                                ctx.analysed(g)
         loops = [l for l in body_walk(h.node) if isinstance(l, ast.For) and peeled and any(isinstance(n, ast.Name) and n.id == peeled for n in ast.walk(l.iter))]
         if peeled is None or len(loops) != 1:
             ctx.undecided(R1, h.key, "cannot find the peel-and-rewrap structure of the replace_params helper", h)
             continue
         o = Orient(h.node, lambda e: isinstance(e, ast.Name) and e.id == peeled)
         par = o.parity(loops[0].iter)
+        if par is not None:
+            par = (par + extra_parity) % 2
         if par is None:
             ctx.undecided(R1, h.key, f"cannot follow the order in which {short(loops[0].iter)} re-applies the peeled modifiers", h)
         else:
